@@ -296,13 +296,15 @@ def run_scenario(sc: dict) -> dict:
     status = "ok"
     horizon = sc.get("horizon", 4000)
 
+    keep = bool(sc.get("keep_loops", False))   # earlier loops stay open (not closed like asyncio.run does)
+    kept: list = []
     for epoch_no, callers in enumerate(sc["epochs"]):
         loop = VLoop(strict=sc.get("strict", True), horizon=t0 + horizon, t0=t0)
         asyncio.set_event_loop(loop)
         loop.events = events
         loop.peer = peer
         loop.connect_script = connect_script
-        loop.rec("LOOP", n=epoch_no)
+        loop.rec("LOOPKEEP" if keep and epoch_no > 0 else "LOOP", n=epoch_no)
 
         async def caller(ci: int, spec: dict):
             if spec.get("start", 0):
@@ -346,6 +348,9 @@ def run_scenario(sc: dict) -> dict:
             status = st
         t0 = loop.ticks
         loop.rec("LOOPEND", n=epoch_no)
+        if keep and st == "ok":
+            kept.append(loop)
+            continue
         try:
             # cancel whatever is left so that closing the loop is quiet
             for task in asyncio.all_tasks(loop):
@@ -356,6 +361,16 @@ def run_scenario(sc: dict) -> dict:
         loop.close()
         if st != "ok":
             break
+    for old in kept:
+        # the kept loops get to run their pending callbacks (connection_lost of transports closed from another loop)
+        try:
+            old._ticks = max(old._ticks, t0)
+            asyncio.set_event_loop(old)
+            old.run_until_complete(asyncio.sleep(0))
+            old.run_until_complete(asyncio.sleep(0))
+        except BaseException:  # noqa
+            pass
+        old.close()
     events.append({"e": "END", "t": t0})
     meta = {k: sc[k] for k in ("kind", "fr", "ka", "retries", "T")}
     meta["strict"] = sc.get("strict", True)
